@@ -136,7 +136,36 @@ func init() {
 		}
 		return Tuple{e.strSlice(parts), nilErr()}
 	}
-	stubs["(time.Time).Format"] = func(e *Exec, fn *ssa.Function, args []Value) Value { return e.opaqueString("timefmt") }
+	// wall-clock rendering of a time value: deterministic for UTC values (block time), process-local
+	// for values in the Local zone (time.Unix, Time.Local): the TZ of the node leaks into the result
+	for _, m := range []string{"Format", "String", "GoString"} {
+		m := m
+		stubs["(time.Time)."+m] = func(e *Exec, fn *ssa.Function, args []Value) Value {
+			if o, ok := args[0].(Opaque); ok && o.Kind == "timelocal" {
+				e.Notes["time.Time."+m+" on a value in the process-local zone (made by time.Unix / UnixMilli / Local): the text depends on the node's TZ (non-determinism hazard)"] = true
+				e.path.events = append(e.path.events, "nondeterminism:time.Time."+m+" in the process-local time zone")
+			}
+			return e.opaqueString("timefmt")
+		}
+	}
+	for _, m := range []string{"Unix", "UnixMilli", "UnixMicro"} {
+		m := m
+		stubs["time."+m] = func(e *Exec, fn *ssa.Function, args []Value) Value {
+			var t *smt.Term
+			switch m {
+			case "Unix":
+				t = smt.Add(smt.Mul(args[0].(*smt.Term), smt.Const(1000000000, 64)), args[1].(*smt.Term))
+			case "UnixMilli":
+				t = smt.Mul(args[0].(*smt.Term), smt.Const(1000000, 64))
+			default:
+				t = smt.Mul(args[0].(*smt.Term), smt.Const(1000, 64))
+			}
+			return Opaque{Kind: "timelocal", Data: t}
+		}
+	}
+	stubs["(time.Time).Local"] = func(e *Exec, fn *ssa.Function, args []Value) Value {
+		return Opaque{Kind: "timelocal", Data: args[0].(Opaque).Data}
+	}
 	stubs["encoding/json.NewDecoder"] = func(e *Exec, fn *ssa.Function, args []Value) Value {
 		return Ptr{Obj: e.newObj(nil, Opaque{Kind: "jsondec"})}
 	}
